@@ -1,4 +1,298 @@
 import Cpl.Model.Rules
+import Cpl.Spec.Ring
+import Cpl.Spec.Torus
+import Cpl.Properties.C01
+import Cpl.Properties.C02
+import Cpl.Lemmas.Async
+
+/-!
+# C12 — AsynchronousRule updates exactly the scheduled cell each step
+
+For every duplicate-free update order whose entries are cells of the automaton (a full permutation or
+a proper subset), every wrapped rule (stateful: its state is threaded, so "invoked once" is part of the
+equalities below), every ring size / grid shape, radius, initial state, step count and every outcome
+of the shuffles (`AsyncSt.shuffles` is the oracle for `np.random.shuffle`).
+
+`Spec.seqRun inner r sched` is the sequential evolution: at step number `t` the single cell `sched t`
+is overwritten by the wrapped rule's value on its current ring window, everything else is copied.
+-/
+
 namespace Cpl.C12
-theorem placeholder : True := trivial
+open Cpl Cpl.Spec
+
+variable {σ α : Type}
+
+/-! ## 1D -/
+
+/-- **One step, fixed order.** Starting a step with a fresh counter, the new row is the old row with
+    the single cell `c = order[curr]` replaced by the wrapped rule's value for `c`'s current window;
+    the wrapped rule is consulted exactly once (its state afterwards is the one that single call
+    returns: with `c` and step number `t`); the position advances cyclically, the counter is back at
+    zero and the order is unchanged. -/
+theorem async_sweep [Inhabited α] (inner : Rule1 σ α) (cells : List α) (r t : Nat) (a : AsyncSt Nat) (s : σ)
+    (c : Nat) (hr : r ≤ cells.length) (hnd : a.order.Nodup) (hlt : ∀ x ∈ a.order, x < cells.length)
+    (hc : a.order[a.curr]? = some c) (hna : a.numApplied = 0) (hrand : a.randomize = false) :
+    Spec.step (asyncRule1 inner) cells r t (a, s)
+      = (cells.set c (inner s (window cells r c) c t).1,
+         ({ a with curr := (a.curr + 1) % a.order.length }, (inner s (window cells r c) c t).2)) := by
+  have hn : a.next = { a with curr := (a.curr + 1) % a.order.length } := by
+    apply AsyncSt.ext' <;> simp [AsyncSt.next, hrand, hna]
+  rw [step_async inner cells r t a s c hr hnd hlt hc hna (by rw [hn])]
+  rw [hn]
+
+/-- The same step read cell by cell: the scheduled cell holds the wrapped rule's value, every other
+    cell (listed or not) keeps its state, and the row keeps its length. -/
+theorem async_sweep_cells [Inhabited α] (inner : Rule1 σ α) (cells : List α) (r t : Nat) (a : AsyncSt Nat)
+    (s : σ) (c : Nat) (hr : r ≤ cells.length) (hnd : a.order.Nodup) (hlt : ∀ x ∈ a.order, x < cells.length)
+    (hc : a.order[a.curr]? = some c) (hna : a.numApplied = 0) (hrand : a.randomize = false) :
+    (Spec.step (asyncRule1 inner) cells r t (a, s)).1[c]? = some (inner s (window cells r c) c t).1 ∧
+    (∀ x, x ≠ c → (Spec.step (asyncRule1 inner) cells r t (a, s)).1[x]? = cells[x]?) ∧
+    (Spec.step (asyncRule1 inner) cells r t (a, s)).1.length = cells.length := by
+  rw [async_sweep inner cells r t a s c hr hnd hlt hc hna hrand]
+  have hcl : c < cells.length := hlt c (List.mem_of_getElem? hc)
+  refine ⟨by simp [hcl], ?_, by simp⟩
+  intro x hx
+  simp only
+  rw [List.getElem?_set]
+  simp [Ne.symm hx]
+
+/-- **Whole run, fixed order, starting at position 0**: the rows are those of the sequential evolution
+    in which step `t` (1-based) touches only the cell `order[(t-1) mod len]`; the wrapped rule's state is
+    threaded through exactly these calls; after `k` steps the position is `k mod len`. -/
+theorem async_run [Inhabited α] (inner : Rule1 σ α) (cells : List α) (r k : Nat) (a : AsyncSt Nat) (s : σ)
+    (hr : r ≤ cells.length) (hnd : a.order.Nodup) (hlt : ∀ x ∈ a.order, x < cells.length)
+    (hne : a.order ≠ []) (hcurr : a.curr = 0) (hna : a.numApplied = 0) (hrand : a.randomize = false) :
+    Spec.run (asyncRule1 inner) r k 1 cells (a, s)
+      = ((seqRun inner r (fun t => a.order[(t - 1) % a.order.length]!) k 1 cells s).1,
+         ({ a with curr := k % a.order.length },
+          (seqRun inner r (fun t => a.order[(t - 1) % a.order.length]!) k 1 cells s).2)) := by
+  have hpos : 0 < a.order.length := List.length_pos_iff.2 hne
+  have hsched : (fun t' => a.cellAt (t' - 1)) = fun t => a.order[(t - 1) % a.order.length]! := by
+    funext t
+    simp [AsyncSt.cellAt, AsyncSt.orderAt, hrand, hcurr]
+  have hafter : a.after k = { a with curr := k % a.order.length } := by
+    apply AsyncSt.ext' <;> simp [AsyncSt.after, AsyncSt.orderAt, hrand, hna, hcurr]
+  have key := run_async inner r cells.length a.order hnd hlt hr k 1 cells a s rfl (List.Perm.refl _)
+    (by simp [hrand]) hna (by omega)
+  rw [hsched, hafter] at key
+  exact key
+
+/-- **`evolve` with a fixed order, row by row.** The evolution has `T` rows starting with `init`;
+    row `t` (`1 ≤ t < T`) is row `t-1` with the single cell `order[(t-1) mod len]` overwritten by a
+    value of the wrapped rule on row `t-1`'s window of that cell — so it differs from row `t-1` at most
+    there — and a cell that is absent from the order holds its initial state in every row. -/
+theorem async_run_rows [DecidableEq α] [Inhabited α] (inner : Rule1 σ α) (init : List α) (r T : Nat)
+    (a : AsyncSt Nat) (s : σ) (h1 : 1 ≤ r) (hr : r ≤ init.length) (hT : 1 ≤ T) (hnd : a.order.Nodup)
+    (hlt : ∀ x ∈ a.order, x < init.length) (hne : a.order ≠ []) (hcurr : a.curr = 0)
+    (hna : a.numApplied = 0) (hrand : a.randomize = false) :
+    ∃ (rows : List (List α)) (sfin : σ),
+      evolveFixed [init] T (asyncRule1 inner) r .plain (a, s)
+        = .ok (rows, ({ a with curr := (T - 1) % a.order.length }, sfin)) ∧
+      rows.length = T ∧ rows[0]! = init ∧
+      (∀ t, 1 ≤ t → t < T → ∃ s' : σ,
+        rows[t]! = (rows[t - 1]!).set (a.order[(t - 1) % a.order.length]!)
+          (inner s' (window rows[t - 1]! r (a.order[(t - 1) % a.order.length]!))
+            (a.order[(t - 1) % a.order.length]!) t).1) ∧
+      (∀ t, t < T → ∀ x, x ∉ a.order → (rows[t]!)[x]? = init[x]?) := by
+  have hpos : 0 < a.order.length := List.length_pos_iff.2 hne
+  refine ⟨init :: (seqRun inner r (fun t => a.order[(t - 1) % a.order.length]!) (T - 1) 1 init s).1,
+    (seqRun inner r (fun t => a.order[(t - 1) % a.order.length]!) (T - 1) 1 init s).2, ?_, ?_, ?_, ?_, ?_⟩
+  · rw [C01.evolveFixed_plain_eq_spec [init] init rfl T hT _ r h1 hr,
+      async_run inner init r (T - 1) a s hr hnd hlt hne hcurr hna hrand]
+    rfl
+  · simp only [List.length_cons, seqRun_length]; omega
+  · rfl
+  · intro t ht1 ht2
+    obtain ⟨s', hs'⟩ := seqRun_rows inner r (fun t => a.order[(t - 1) % a.order.length]!) (T - 1) 1 init s
+      (t - 1) (by omega)
+    refine ⟨s', ?_⟩
+    have e1 : t - 1 + 1 = t := by omega
+    have e2 : 1 + (t - 1) = t := by omega
+    rw [e1, e2] at hs'
+    exact hs'
+  · intro t ht x hx
+    cases t with
+    | zero => rfl
+    | succ t =>
+      have hlen := seqRun_length inner r (fun t => a.order[(t - 1) % a.order.length]!) (T - 1) 1 init s
+      have hlt' : t < (seqRun inner r (fun t => a.order[(t - 1) % a.order.length]!) (T - 1) 1 init s).1.length := by
+        rw [hlen]; omega
+      have hrow : (init :: (seqRun inner r (fun t => a.order[(t - 1) % a.order.length]!) (T - 1) 1 init s).1)[t + 1]!
+          = (seqRun inner r (fun t => a.order[(t - 1) % a.order.length]!) (T - 1) 1 init s).1[t] := by
+        rw [getElem!_pos _ (t + 1) (by simp only [List.length_cons]; omega)]
+        rfl
+      rw [hrow]
+      apply seqRun_unscheduled inner r _ x (T - 1) 1 init s _ _ (List.getElem_mem hlt')
+      intro t' _ _ heq
+      apply hx
+      rw [← heq]
+      have hl : (t' - 1) % a.order.length < a.order.length := Nat.mod_lt _ hpos
+      rw [getElem!_pos a.order _ hl]
+      exact List.getElem_mem hl
+
+/-- **One step with `randomize_each_cycle`.** Whatever order the shuffle produces (any permutation of
+    the current one), the step still overwrites exactly the cell scheduled *before* the shuffle,
+    consults the wrapped rule once, and ends with the counter at zero, the position advanced, and the
+    next shuffle outcome (if the oracle has one) installed as the order. -/
+theorem async_shuffle_step [Inhabited α] (inner : Rule1 σ α) (cells : List α) (r t : Nat) (a : AsyncSt Nat)
+    (s : σ) (c : Nat) (hr : r ≤ cells.length) (hnd : a.order.Nodup) (hlt : ∀ x ∈ a.order, x < cells.length)
+    (hc : a.order[a.curr]? = some c) (hna : a.numApplied = 0) (hrand : a.randomize = true)
+    (hsh : ∀ o ∈ a.shuffles, o.Perm a.order) :
+    Spec.step (asyncRule1 inner) cells r t (a, s)
+      = (cells.set c (inner s (window cells r c) c t).1,
+         ({ order := a.shuffles.head?.getD a.order, curr := (a.curr + 1) % a.order.length, numApplied := 0,
+            randomize := true, shuffles := a.shuffles.tail },
+          (inner s (window cells r c) c t).2)) := by
+  have hn : a.next = ⟨a.shuffles.head?.getD a.order, (a.curr + 1) % a.order.length, 0, true, a.shuffles.tail⟩ := by
+    apply AsyncSt.ext' <;> simp [AsyncSt.next, hrand]
+  rw [step_async inner cells r t a s c hr hnd hlt hc hna
+    (next_order_perm a a.order (List.Perm.refl _) (fun _ => hsh)), hn]
+
+/-- **Whole run with `randomize_each_cycle`, for every oracle.** Let `orig` be the original
+    duplicate-free order; the current order and all future shuffle outcomes are permutations of it.
+    Then the run is the sequential evolution whose step `t'` touches exactly one cell, the listed cell
+    at position `(curr + (t'-t)) mod len` of the order in force at that step (the `(t'-t)`-th oracle
+    outcome); all other cells keep their state; afterwards the order is still a permutation of `orig`,
+    the counter is zero and the position is in range. -/
+theorem async_shuffle [Inhabited α] (inner : Rule1 σ α) (orig : List Nat) (cells : List α) (r k t : Nat)
+    (a : AsyncSt Nat) (s : σ) (hr : r ≤ cells.length) (hnd : orig.Nodup)
+    (hlt : ∀ x ∈ orig, x < cells.length) (ho : a.order.Perm orig)
+    (hsh : ∀ o ∈ a.shuffles, o.Perm orig) (hc : a.curr < a.order.length) (hna : a.numApplied = 0)
+    (hrand : a.randomize = true) :
+    let sched : Nat → Nat := fun t' =>
+      ((a.order :: a.shuffles)[min (t' - t) a.shuffles.length]!)[(a.curr + (t' - t)) % a.order.length]!
+    let res := Spec.run (asyncRule1 inner) r k t cells (a, s)
+    res = ((seqRun inner r sched k t cells s).1,
+           ({ order := (a.order :: a.shuffles)[min k a.shuffles.length]!,
+              curr := (a.curr + k) % a.order.length, numApplied := 0, randomize := true,
+              shuffles := a.shuffles.drop k },
+            (seqRun inner r sched k t cells s).2)) ∧
+    (∀ t', sched t' ∈ orig) ∧
+    res.2.1.order.Perm orig ∧ res.2.1.numApplied = 0 ∧ res.2.1.curr < res.2.1.order.length := by
+  intro sched res
+  have hne : a.order ≠ [] := List.ne_nil_of_length_pos (by omega)
+  have hsched : (fun t' => a.cellAt (t' - t)) = sched := by
+    funext t'
+    simp [sched, AsyncSt.cellAt, AsyncSt.orderAt, hrand]
+  have hafter : a.after k = ⟨(a.order :: a.shuffles)[min k a.shuffles.length]!,
+      (a.curr + k) % a.order.length, 0, true, a.shuffles.drop k⟩ := by
+    apply AsyncSt.ext' <;> simp [AsyncSt.after, AsyncSt.orderAt, hrand]
+  have key : res = _ := run_async inner r cells.length orig hnd hlt hr k t cells a s rfl ho (fun _ => hsh) hna hc
+  rw [hsched, hafter] at key
+  have hperm : ((a.order :: a.shuffles)[min k a.shuffles.length]!).Perm orig := by
+    have := orderAt_perm a orig ho (fun _ => hsh) k
+    simpa [AsyncSt.orderAt, hrand] using this
+  refine ⟨key, ?_, ?_, ?_, ?_⟩
+  · intro t'
+    have := cellAt_mem a orig ho (fun _ => hsh) hne (t' - t)
+    rw [← hsched]; exact this
+  · rw [key]; exact hperm
+  · rw [key]
+  · rw [key]
+    simp only
+    rw [hperm.length_eq, ← ho.length_eq]
+    exact Nat.mod_lt _ (by omega)
+
+/-! ## 2D -/
+
+/-- **One 2D step, fixed order.** Cell `(i, j)` of the new grid is the wrapped rule's value if `(i, j)`
+    is the scheduled cell `order[curr]` and the old state `g[i][j]` (the never-masked centre of its
+    neighbourhood) otherwise — for Moore and von Neumann alike; the wrapped rule is consulted once, with
+    that cell's torus neighbourhood, `(row, col)` and `t`; position advanced, counter zero, same order. -/
+theorem async_sweep2 [Inhabited α] (inner : Rule2 σ α) (g : Grid α) (R C r : Nat) (vn : Bool) (t : Nat)
+    (a : AsyncSt (Nat × Nat)) (s : σ) (c : Nat × Nat) (hR : r ≤ R) (hC : r ≤ C) (hnd : a.order.Nodup)
+    (hin : ∀ x ∈ a.order, x ∈ cellsRowMajor R C) (hc : a.order[a.curr]? = some c) (hna : a.numApplied = 0)
+    (hrand : a.randomize = false) :
+    Spec.step2 (asyncRule2 inner) g R C r vn t (a, s)
+      = ((List.range R).map (fun i => (List.range C).map fun j =>
+            if (i, j) = c then (inner s (nbhd g R C r vn c.1 c.2) c t).1 else (g[i]!)[j]!),
+         ({ a with curr := (a.curr + 1) % a.order.length }, (inner s (nbhd g R C r vn c.1 c.2) c t).2)) := by
+  have hn : a.next = { a with curr := (a.curr + 1) % a.order.length } := by
+    apply AsyncSt.ext' <;> simp [AsyncSt.next, hrand, hna]
+  rw [step2_async inner g R C r vn t a s c hR hC hnd hin hc hna (by rw [hn]), hn]
+
+/-- **One 2D step with `randomize_each_cycle`**, for every shuffle outcome: still exactly the cell
+    scheduled before the shuffle is overwritten, the wrapped rule is consulted once, and the next
+    oracle outcome becomes the order. -/
+theorem async_shuffle2 [Inhabited α] (inner : Rule2 σ α) (g : Grid α) (R C r : Nat) (vn : Bool) (t : Nat)
+    (a : AsyncSt (Nat × Nat)) (s : σ) (c : Nat × Nat) (hR : r ≤ R) (hC : r ≤ C) (hnd : a.order.Nodup)
+    (hin : ∀ x ∈ a.order, x ∈ cellsRowMajor R C) (hc : a.order[a.curr]? = some c) (hna : a.numApplied = 0)
+    (hrand : a.randomize = true) (hsh : ∀ o ∈ a.shuffles, o.Perm a.order) :
+    Spec.step2 (asyncRule2 inner) g R C r vn t (a, s)
+      = ((List.range R).map (fun i => (List.range C).map fun j =>
+            if (i, j) = c then (inner s (nbhd g R C r vn c.1 c.2) c t).1 else (g[i]!)[j]!),
+         ({ order := a.shuffles.head?.getD a.order, curr := (a.curr + 1) % a.order.length, numApplied := 0,
+            randomize := true, shuffles := a.shuffles.tail },
+          (inner s (nbhd g R C r vn c.1 c.2) c t).2)) := by
+  have hn : a.next = ⟨a.shuffles.head?.getD a.order, (a.curr + 1) % a.order.length, 0, true, a.shuffles.tail⟩ := by
+    apply AsyncSt.ext' <;> simp [AsyncSt.next, hrand]
+  rw [step2_async inner g R C r vn t a s c hR hC hnd hin hc hna
+    (next_order_perm a a.order (List.Perm.refl _) (fun _ => hsh)), hn]
+
+/-! ## Orders generated from `num_cells` -/
+
+/-- The 1D order generated from `num_cells = n` lists every cell `0 .. n-1` once, and so does every
+    shuffle outcome (any permutation of it): duplicate-free, `n` entries, exactly the cells below `n`. -/
+theorem init_order_perm (n : Nat) :
+    initOrder1 n = List.range n ∧
+    ∀ o : List Nat, o.Perm (initOrder1 n) → o.Nodup ∧ o.length = n ∧ ∀ c, c ∈ o ↔ c < n := by
+  refine ⟨rfl, ?_⟩
+  intro o ho
+  refine ⟨ho.nodup_iff.2 List.nodup_range, by rw [ho.length_eq]; simp [initOrder1], ?_⟩
+  intro c
+  rw [ho.mem_iff]; simp [initOrder1]
+
+/-- The 2D order generated from `num_cells = (R, C)` lists every cell `(i, j)` once in row-major order,
+    and every shuffle outcome is a duplicate-free list of exactly the `R·C` cells of the grid. -/
+theorem init_order_perm2 (R C : Nat) :
+    initOrder2 R C = cellsRowMajor R C ∧
+    ∀ o : List (Nat × Nat), o.Perm (initOrder2 R C) →
+      o.Nodup ∧ o.length = R * C ∧ ∀ c, c ∈ o ↔ c.1 < R ∧ c.2 < C := by
+  refine ⟨rfl, ?_⟩
+  intro o ho
+  refine ⟨ho.nodup_iff.2 (cellsRowMajor_nodup R C), by rw [ho.length_eq]; exact cellsRowMajor_length R C, ?_⟩
+  intro c
+  rw [ho.mem_iff]; exact mem_cellsRowMajor R C c
+
+/-! ## Guard witnesses and non-vacuity -/
+
+/-! `probe` / `probe2` (in `Cpl.Lemmas.Async`) are stateful test rules: value = sum of the (unmasked)
+neighbourhood + step number; the state counts the invocations. -/
+
+/-- The hypotheses of `async_sweep` hold for a proper-subset order on a ring of 4 cells (`r = 1`):
+    only cell 2 changes (6 + 7 + 8 + t), one invocation. -/
+example : Spec.step (asyncRule1 probe) [5, 6, 7, 8] 1 3 ({ order := [2, 0] }, 0)
+    = ([5, 6, 24, 8], ({ order := [2, 0], curr := 1 }, 1)) := by
+  rw [async_sweep probe [5, 6, 7, 8] 1 3 { order := [2, 0] } 0 2 (by decide) (by decide) (by decide) rfl rfl rfl]
+  rfl
+
+/-- … and of `async_sweep2` on a 2×3 torus with von Neumann radius 1. -/
+example : (Spec.step2 (asyncRule2 probe2) [[1, 2, 3], [4, 5, 6]] 2 3 1 true 1
+      ({ order := [(1, 2), (0, 0)] }, 0)).1 = [[1, 2, 3], [4, 5, 6 + 3 + 3 + 5 + 4 + 1]] := by
+  rw [async_sweep2 probe2 [[1, 2, 3], [4, 5, 6]] 2 3 1 true 1 { order := [(1, 2), (0, 0)] } 0 (1, 2)
+    (by decide) (by decide) (by decide) (by decide) rfl rfl rfl]
+  decide
+
+/-- … and of `async_shuffle_step`: the shuffle installs `[0, 2]` but the step still updates cell 2. -/
+example : Spec.step (asyncRule1 probe) [5, 6, 7, 8] 1 3
+      ({ order := [2, 0], randomize := true, shuffles := [[0, 2]] }, 0)
+    = ([5, 6, 24, 8], ({ order := [0, 2], curr := 1, randomize := true, shuffles := [] }, 1)) := by
+  rw [async_shuffle_step probe [5, 6, 7, 8] 1 3 { order := [2, 0], randomize := true, shuffles := [[0, 2]] } 0 2
+    (by decide) (by decide) (by decide) rfl rfl rfl (by decide)]
+  rfl
+
+/-- **Duplicate entry breaks the step**: with `order = [0, 0]` only one listed cell is met per pass, so
+    the counter is stuck at 1 (not reset) and the position does not advance. -/
+example : (Spec.step (asyncRule1 probe) [5, 6, 7] 1 1 ({ order := [0, 0] }, 0)).2.1.numApplied = 1
+    ∧ (Spec.step (asyncRule1 probe) [5, 6, 7] 1 1 ({ order := [0, 0] }, 0)).2.1.curr = 0 := by decide
+
+/-- **Empty order**: nothing is scheduled, the wrapped rule is never consulted, the row is copied, and
+    the position runs away (`(curr + 1) % 0` at every cell). -/
+example : (Spec.step (asyncRule1 probe) [5, 6, 7] 1 1 ({ order := [] }, 0)).1 = [5, 6, 7]
+    ∧ (Spec.step (asyncRule1 probe) [5, 6, 7] 1 1 ({ order := [] }, 0)).2.2 = 0
+    ∧ (Spec.step (asyncRule1 probe) [5, 6, 7] 1 1 ({ order := [] }, 0)).2.1.curr = 3 := by decide
+
+/-- **An entry that is not a cell** (`7` on a ring of 3): the counter never reaches the length. -/
+example : (Spec.step (asyncRule1 probe) [5, 6, 7] 1 1 ({ order := [1, 7] }, 0)).2.1.numApplied = 1 := by decide
+
 end Cpl.C12
